@@ -277,6 +277,23 @@ func (f *RunningEventFilter) onReorg(writer db.KeyValueWriter) error {
 	return f.inner.clear(curBlock)
 }
 
+// Invalidate discards the in-memory state of a lazily initialised filter so that the next
+// access re-initialises it from the database. It must be called when a batch that carried an
+// InsertWithBatch or OnReorgWithBatch failed to commit: the in-memory filter has already been
+// advanced (or rolled back) and would otherwise disagree with what is on disk.
+func (f *RunningEventFilter) Invalidate() {
+	f.mu.Lock()
+	defer f.mu.Unlock()
+
+	if f.initialize == nil {
+		return
+	}
+	f.lazyOnce = sync.Once{}
+	f.initErr = nil
+	f.inner = nil
+	f.next = 0
+}
+
 // Write writes the current state of the RunningEventFilter to persistent storage.
 func (f *RunningEventFilter) Write() error {
 	f.mu.Lock()
